@@ -147,13 +147,17 @@ func render(t *rapid.T, toks []Tok, dense, bang bool) (string, int) {
 				asi++
 				continue // rule: before } and at the end of input
 			case mode == 1 && !last && !toks[i+1].NoLT && !toks[i+1].Semi &&
-				(safeAfterASI(nextS) || i > 0 && toks[i-1].EndsUncallable && (nextS[0] == '(' || nextS[0] == '[' || nextS[0] == '`')):
+				(safeAfterASI(nextS) || i > 0 && toks[i-1].EndsUncallable && (nextS[0] == '(' || nextS[0] == '[' || nextS[0] == '`') ||
+					i > 0 && toks[i-1].EndsClosed && (nextS == "+" || nextS == "-" || nextS == "++" || nextS == "--" || nextS[0] == '/')):
 				asi++
 				pendingLT = true
 				continue // rule: offending token on a new line
 			}
 		}
 		sep := ""
+		if k.NeedLT {
+			pendingLT = true
+		}
 		if prev != "" {
 			need := r.mustSeparate(prev, k.S)
 			choice := 0
